@@ -83,7 +83,8 @@ fn oneway_fwd(op: &Op, _ctx: &dyn Context, operands: &mut dyn CoordinateSet) -> 
     n
 }
 #[rustfmt::skip]
-const ONEWAY_GAMUT: [OpParameter; 1] = [
+const ONEWAY_GAMUT: [OpParameter; 2] = [
+    OpParameter::Flag { key: "inv" },
     OpParameter::Natural { key: "e", default: Some(1) },
 ];
 fn oneway_new(p: &RawParameters, ctx: &dyn Context) -> Result<Op, Error> {
